@@ -1,3 +1,85 @@
-import Dbus.Model.Message
+import Dbus.Proofs.WireFuel
+/-
+  C01 — untrusted bytes become a message only if spec-valid, and always safely.
+  Property theorems (value / body level; the message level is in the second half).
+-/
 namespace Dbus.Props.C01
+open Dbus Dbus.Spec Dbus.Model Dbus.Proofs.Wire
+
+/-- **Soundness / canonicity.** Whatever the decoder accepts as a value of type `t` is exactly
+    the specification's encoding of the value it returns (so no second byte string decodes to
+    the same value at that offset), and the value is well-formed: typed, booleans 0/1, strings
+    valid UTF-8 / paths / signatures, padding zero, array ≤ 2^26 bytes, nesting ≤ 64. -/
+theorem decode_sound' (e : Endian) (g d : Nat) (t : Ty) (off : Nat) (bs : Bytes) (v : Val) (r : Bytes)
+    (h : decode e g d t off bs = some (v, r)) :
+    bs = encode e off v ++ r ∧ WFVal e d off v t :=
+  (decode_sound e g).1 d t off bs v r h
+
+/-- **Completeness.** The encoding of every well-formed value is accepted, whatever follows
+    it, and reads back as that value; the fuel the loader passes (`fuelFor`) is enough. -/
+theorem decode_encode (e : Endian) (v : Val) (t : Ty) (off : Nat) (r : Bytes) (n : Nat)
+    (h : WFVal e 0 off v t) (hn : (encode e off v).length ≤ n) :
+    decode e (fuelFor n) 0 t off (encode e off v ++ r) = some (v, r) := by
+  apply decode_complete e v t 0 off r _ h
+  have := need_le e v t 0 off h
+  unfold fuelFor; omega
+
+/-- **Accepts iff spec-valid** for a sequence of values of the given types (a message body or
+    the header seen as a body): accepted exactly when the bytes are the encoding of
+    well-formed values of those types followed by the remainder. -/
+theorem decodeFields_iff (e : Endian) (ts : List Ty) (bs : Bytes) (vs : List Val) (r : Bytes) :
+    decodeFields e (fuelFor bs.length) 0 ts 0 bs = some (vs, r) ↔
+      (bs = encodeList e 0 vs ++ r ∧ WFFields e 0 0 vs ts) := by
+  constructor
+  · exact (decode_sound e _).2.1 0 ts 0 bs vs r
+  · rintro ⟨hb, hwf⟩
+    have hfuel : needList vs ≤ fuelFor bs.length :=
+      fuelFor_covers e vs ts 0 bs.length hwf (by rw [hb]; simp)
+    have := decodeFields_complete e vs ts 0 0 r (fuelFor bs.length) hwf hfuel
+    rw [hb] at this ⊢
+    simpa using this
+
+/-- **Prefix stability** (used by C11): what is accepted, and how many bytes it consumed, does
+    not depend on the bytes that follow. -/
+theorem validate_prefix_stable (e : Endian) (ts : List Ty) (a b : Bytes) (vs : List Val) (r : Bytes)
+    (h : decodeFields e (fuelFor a.length) 0 ts 0 a = some (vs, r)) :
+    decodeFields e (fuelFor (a ++ b).length) 0 ts 0 (a ++ b) = some (vs, r ++ b) := by
+  obtain ⟨ha, hwf⟩ := (decodeFields_iff e ts a vs r).1 h
+  apply (decodeFields_iff e ts (a ++ b) vs (r ++ b)).2
+  exact ⟨by rw [ha]; simp, hwf⟩
+
+/-- … and conversely: if the longer buffer is accepted using only bytes of the shorter one,
+    the shorter one is accepted with the same values. -/
+theorem validate_prefix_reflects (e : Endian) (ts : List Ty) (a b : Bytes) (vs : List Val) (r : Bytes)
+    (h : decodeFields e (fuelFor (a ++ b).length) 0 ts 0 (a ++ b) = some (vs, r))
+    (hlen : (encodeList e 0 vs).length ≤ a.length) :
+    ∃ r', r = r' ++ b ∧ decodeFields e (fuelFor a.length) 0 ts 0 a = some (vs, r') := by
+  obtain ⟨hab, hwf⟩ := (decodeFields_iff e ts (a ++ b) vs r).1 h
+  -- a ++ b = enc ++ r with |enc| ≤ |a| : so a = enc ++ r' and r = r' ++ b
+  have h1 : a = (a ++ b).take a.length := by simp
+  have hsplit : a = encodeList e 0 vs ++ (a.drop (encodeList e 0 vs).length) := by
+    have : (a ++ b).take (encodeList e 0 vs).length = encodeList e 0 vs := by rw [hab]; simp
+    have h2 : a.take (encodeList e 0 vs).length = encodeList e 0 vs := by
+      rw [List.take_append_of_le_length hlen] at this
+      exact this
+    have h3 := (List.take_append_drop (encodeList e 0 vs).length a).symm
+    rw [h2] at h3
+    exact h3
+  refine ⟨a.drop (encodeList e 0 vs).length, ?_, ?_⟩
+  · have : encodeList e 0 vs ++ r = encodeList e 0 vs ++ (a.drop (encodeList e 0 vs).length ++ b) := by
+      rw [← hab, ← List.append_assoc, ← hsplit]
+    exact List.append_cancel_left this
+  · apply (decodeFields_iff e ts a vs _).2
+    exact ⟨hsplit, hwf⟩
+
+/-- non-vacuity: a struct holding a byte, an array of u16 and a variant is well-formed (so
+    the hypotheses of `decode_encode` are satisfiable by a nested value) in both byte orders -/
+example (e : Endian) :
+    WFVal e 0 0 (.struct [.fixed .byte 9, .array (.basic .u16) [.fixed .u16 7, .fixed .u16 65535],
+                          .variant (.basic .bool) (.fixed .bool 1)])
+      (.struct [.basic .byte, .array (.basic .u16), .variant]) := by
+  simp [WFVal, WFFields, WFElems, BTy.isFixed, BTy.fixedSize, BTy.size, Ty.isFixed, MAX_VALUE_DEPTH,
+    MAX_ARRAY_LENGTH, Ty.WF, Ty.DepthLax, Ty.maxRun, Ty.structDepth, Ty.dictDepth, MAX_TYPE_DEPTH,
+    encodeList, encode, encNat_length, Ty.print, BTy.code, pad, padLen, BTy.align, Ty.align]
+
 end Dbus.Props.C01
